@@ -1144,11 +1144,11 @@ VARIANTS = [
       '      while (result := next(self._it)) is _SKIPPED:\n        self._index += 1\n',
       '      result = next(self._it)\n      if result is _SKIPPED:\n        self._index += 1\n        return next(self)\n', 'R-C12-19'),
     B('shared-iterator-remembers-end-after-any-error', 'utils/iter_utils.py',
-      '    with self._lock:\n      return next(self._iterator)',
-      '    with self._lock:\n      if getattr(self, \'_ended\', False):\n        raise StopIteration()\n      self._ended = True\n      value = next(self._iterator)\n      self._ended = False\n      return value', 'R-C12-17'),
+      '      try:\n        return next(self._iterator)\n      except StopIteration:\n        # Only one of the threads sharing the iterator relays its return\n        # values, a queue raises them again at every call.\n        self._exhausted = True\n        raise',
+      '      self._exhausted = True\n      value = next(self._iterator)\n      self._exhausted = False\n      return value', 'R-C12-17'),
     OK('shared-iterator-remembers-end-on-stop-only', 'utils/iter_utils.py',
-       '    with self._lock:\n      return next(self._iterator)',
-       '    with self._lock:\n      try:\n        return next(self._iterator)\n      except StopIteration:\n        self._ended = True\n        raise'),
+       '      except StopIteration:\n        # Only one of the threads sharing the iterator relays its return\n        # values, a queue raises them again at every call.\n        self._exhausted = True\n        raise',
+       '      except StopIteration as end:\n        self._exhausted = True\n        raise end'),
     B('filter-predicate-skips-twice', 'chainables/tree_fns.py',
       '    it_ = iter_utils.processed_with_inputs(\n        self._iterate, iter(input_iterator), ignore_error=self.ignore_error\n    )\n    return (elem for (value,), elem in it_ if value)',
       '    predicate = functools.partial(self._iterate, ignore_error=self.ignore_error)\n    it_ = iter_utils.processed_with_inputs(\n        predicate, iter(input_iterator), ignore_error=self.ignore_error\n    )\n    return (elem for (value,), elem in it_ if value)',
